@@ -26,7 +26,7 @@ OPEN = {
     "C14": ["C14_T for EXT-X-KEY / STREAM-INF as an iff over all attribute lists: only the invariant direction is proved for keys; stream tags are by typing (BANDWIDTH / URI are required fields of the result)"],
     "C16": ["C16_slide is proved for the restatement the WRITER produces for the slid value (keys and maps re-announced by the library itself); a server that restates tags differently (e.g. repeats all keys in another order) is covered by C06/C12 only; wf_media carries the float/duration hypotheses"],
     "C18": ["C18_float / C18_ufloat / C18_duration: parse (print v) = v for every finite f32 and every duration below 10^6 s -- rests on the modelled std float conversions; enters the tag theorems as the decidable hypotheses float_rt / ufloat_rt / dur_rt (evaluated on sample values in C18_float_hypotheses), validated by correspondence and sweep, not proved"],
-    "C20": ["C20_agree: for content without explicit numbers, builder_run (calls a order) = parse_media (render canon a) up to obs -- only the shared build() and the setter algebra are proved; agreement of the two paths is sampled"],
+    "C20": ["C20_ops: run_builder (the call sequence for a content) = build (builder_of ...) -- the step from a sequence of public builder CALLS (setters, push_segment / segments, tag arguments given as text) to the builder record is proved for the setters (commute / last wins) and the slot vector; that the calls for a content produce exactly `builder_of p raws` is sampled by the correspondence check, not proved; C20_rebuild / C20_paths_agree are stated on the builder record"],
 }
 
 
